@@ -27,6 +27,9 @@ Inductive case :=
           (pts : list point)
           (gather_err : bool) (nerr : N) (target scope_info : bool)
           (fam : option (bytes * N * list oseries))
+          (* exemplars: expected trace_id / span_id (hex), per SDK point its exemplars (filtered attributes, value),
+             per exposed series its exemplars (labels, value); both lists aligned with [pts] / the series of [fam] *)
+          (tid sid : bytes) (pexs : list (list sdk_ex)) (oexs : list (list out_ex))
 | CAttrs (utf8 : bool) (input out : list Model.attr).   (* target_info labels of a resource *)
 
 Definition flag (b : bool) (code : N) : list N := if b then [] else [code].
@@ -95,8 +98,22 @@ Fixpoint collect (l : list (option (option oseries))) : option (list oseries * N
       end
   end.
 
+(** addExemplars runs for monotonic sums and explicit-bucket histograms only. *)
+Definition ex_eligible (kind : N) (v : value) : bool :=
+  match v with
+  | VNum _ => (kind =? 0)
+  | VHist _ _ _ _ => true
+  | VExpo _ _ _ _ _ _ _ _ => false
+  end.
+
+Definition model_ex_errors (c : config) (kind : N) (pts : list point) (pexs : list (list sdk_ex)) : N :=
+  N.of_nat (length (filter (fun pp =>
+    let p := fst pp in
+    point_exposed (utf8 c) (get_attrs (utf8 c) (fst p)) && negb (bad_schema (snd p)) && ex_eligible kind (snd p) &&
+    existsb (fun e => exemplar_rejected (utf8 c) (fst e)) (snd pp)) (combine pts pexs))).
+
 Definition model_matches (c : config) (name unit : bytes) (kind : N) (sn sv : bytes)
-    (res scope_attrs : list Model.attr) (pts : list point)
+    (res scope_attrs : list Model.attr) (pts : list point) (pexs : list (list sdk_ex))
     (gather_err : bool) (nerr : N) (target scope_info : bool)
     (fam : option (bytes * N * list oseries)) : bool :=
   let target_ok := info_labels_ok (utf8 c) res in
@@ -106,7 +123,7 @@ Definition model_matches (c : config) (name unit : bytes) (kind : N) (sn sv : by
   if scope_ok then
     match get_name c name unit (is_counter (kind_of kind)), collect (map (model_series c sn sv) pts) with
     | Name n, Some (ms, dropped) =>
-        (nerr =? dropped + terr) && Bool.eqb scope_info (has_scope_info c) &&
+        (nerr =? dropped + terr + model_ex_errors c kind pts pexs) && Bool.eqb scope_info (has_scope_info c) &&
         match fam with
         | None => match ms with [] => true | _ => false end
         | Some (fname, ftype, os) =>
@@ -150,7 +167,8 @@ Definition known_attrs (utf8 : bool) (l : list Model.attr) : bool := existsb (fu
 
 Definition check_case (c : case) : list N :=
   match c with
-  | CScrape utf8 no_units no_total ns no_scope no_target name unit kind sn sv res scope_attrs pts gerr nerr target scope_info fam =>
+  | CScrape utf8 no_units no_total ns no_scope no_target name unit kind sn sv res scope_attrs pts gerr nerr target scope_info fam
+            tid sid pexs oexs =>
       let cfg := {| Model.utf8 := utf8; without_units := no_units; without_counter_suffixes := no_total;
                     ns_opt := ns; without_scope_info := no_scope; without_target_info := no_target |} in
       let inp := {| ni_utf8 := utf8; ni_no_units := no_units; ni_no_total := no_total; ni_ns := ns;
@@ -165,7 +183,14 @@ Definition check_case (c : case) : list N :=
       let scope_known := negb no_scope && known_attrs utf8 scope_attrs && negb scope_info &&
                          match fam with None => true | Some _ => false end in
       let terr := if negb no_target && negb target then 1 else 0 in
-      flag (model_matches cfg name unit kind sn sv res scope_attrs pts gerr nerr target scope_info fam) V_MISMATCH ++
+      let oss := combine os oexs in
+      (* exemplar judge: the series of an eligible point carries acceptable exemplars *)
+      let ex_ok pp := negb (ex_eligible kind (snd (fst pp))) || negb (covered (fst pp)) ||
+                      existsb (fun ss => series_ok utf8 no_scope sn sv (fst pp) (fst ss) &&
+                                         exemplars_ok tid sid (snd pp) (snd ss)) oss in
+      let xerr := N.of_nat (length (filter (fun pp => ex_eligible kind (snd (fst pp)) && covered (fst pp) &&
+                                                      existsb ex_unrepresentable (snd pp)) (combine pts pexs))) in
+      flag (model_matches cfg name unit kind sn sv res scope_attrs pts pexs gerr nerr target scope_info fam) V_MISMATCH ++
       flag (negb gerr && (Bool.eqb target (negb no_target) || res_known) &&
             if scope_known then (nerr =? 1 + terr)
             else
@@ -177,7 +202,9 @@ Definition check_case (c : case) : list N :=
               forallb covered good &&
               forallb (fun s => existsb (fun p => series_ok utf8 no_scope sn sv p s) pts) os &&
               (length os <=? length pts)%nat &&
-              (N.of_nat (length os) + nerr =? N.of_nat (length pts) + terr)) V_SPECFAIL ++
+              (N.of_nat (length os) + nerr =? N.of_nat (length pts) + terr + xerr) &&
+              Nat.eqb (length pexs) (length pts) && Nat.eqb (length oexs) (length os) &&
+              forallb ex_ok (combine pts pexs)) V_SPECFAIL ++
       flag (negb res_known && negb scope_known && (scope_known || forallb covered bad)) (V_KNOWN 2) ++
       flag (scope_known || forallb covered bad3) (V_KNOWN 3)
   | CAttrs utf8 input out =>
